@@ -147,6 +147,9 @@ class RemapColumnsOp(BaseOp):
 
     @staticmethod
     def validate_input_data(parameters):
+        columns = parameters['source_columns'] + parameters['destination_columns']
+        if len(set(columns)) != len(columns):
+            return ["source_columns and destination_columns must not share or repeat column names."]
         map_list = parameters["map_list"]
         required_len = len(parameters['source_columns']) + len(parameters['destination_columns'])
         for x in map_list:
